@@ -37,6 +37,7 @@ class FnInfo:
         self.traitpost = False
         self.attr = None
         self.n_loops = 0
+        self.lost_anchors = []      # contract parts that could not be attached (loop / call the directive names is gone): the function is UNDECIDED
 
 
 class Generated:
@@ -614,7 +615,10 @@ def generate(unit, template_path, repo=None, canary=False):
                     ks |= set(range(1, len(loops) + 1))
                 for k in sorted(ks):
                     if k < 1 or k > len(loops):
-                        raise AnchorError(f'{fi.name}: loop {k} not found (function has {len(loops)} loops)')
+                        # the loop a contract is attached to is gone: THIS function is undecided (its contract cannot be spliced), the rest of
+                        # the unit is still generated and checked
+                        fi.lost_anchors.append(f'loop {k} not found (function has {len(loops)} loops)')
+                        continue
                     kw_b, open_b, in_b = loops[k - 1]
                     ltxt = ''
                     lkv = {}
@@ -673,7 +677,8 @@ def generate(unit, template_path, repo=None, canary=False):
                     ordn = int(ordn or 1)
                     hits = [i for i, t in enumerate(st) if t.kind == 'id' and t.text == callee and i + 1 < len(st) and st[i + 1].text == '(' and t.start > lay['body_open']]
                     if len(hits) < ordn:
-                        raise AnchorError(f'{fi.name}: proof anchor {callee}#{ordn} not found')
+                        fi.lost_anchors.append(f'proof anchor {callee}#{ordn} not found')
+                        continue
                     # statement start: walk back to previous ';' '{' or '}' at same depth
                     i = hits[ordn - 1]
                     if key == 'before':
@@ -716,7 +721,8 @@ def generate(unit, template_path, repo=None, canary=False):
                     k = int(pkv['at'][0][9:])
                     loops = _loops(body, lay['body_open'])
                     if k < 1 or k > len(loops):
-                        raise AnchorError(f'{fi.name}: proof anchor loop {k} not found')
+                        fi.lost_anchors.append(f'proof anchor loop {k} not found')
+                        continue
                     oi = [i for i, t in enumerate(st) if t.start == loops[k - 1][1]][0]
                     ci = match_close(st, oi)
                     inserts.append((st[ci].end, '\n' + ptxt.rstrip() + '\n', ('contract', fi.name, 'proof')))
@@ -724,7 +730,8 @@ def generate(unit, template_path, repo=None, canary=False):
                     k = int(pkv['at'][0][10:])
                     loops = _loops(body, lay['body_open'])
                     if k < 1 or k > len(loops):
-                        raise AnchorError(f'{fi.name}: proof anchor loop {k} not found')
+                        fi.lost_anchors.append(f'proof anchor loop {k} not found')
+                        continue
                     # a labelled loop keeps its label: insert before the label if present
                     pos = loops[k - 1][0]
                     inserts.append((pos, ptxt.strip().replace('\n', ' ') + ' ', None))
@@ -732,7 +739,8 @@ def generate(unit, template_path, repo=None, canary=False):
                     k = int(pkv['at'][0][4:])
                     loops = _loops(body, lay['body_open'])
                     if k < 1 or k > len(loops):
-                        raise AnchorError(f'{fi.name}: proof anchor loop {k} not found')
+                        fi.lost_anchors.append(f'proof anchor loop {k} not found')
+                        continue
                     inserts.append((loops[k - 1][1] + 1, '\n' + ptxt.rstrip() + '\n', ('contract', fi.name, 'proof')))
                 elif 'at' in pkv and pkv['at'][0] == 'end':
                     # just before the closing brace of the body (only sound as a hint position when the body ends with a statement, not a tail expression)
